@@ -42,9 +42,9 @@ const map<string, double> PREFIX_FACTORS = {{"y", 1.0e-24}, {"z", 1.0e-21}, {"a"
 
 
 string createId() {
-    typedef boost::mt19937::result_type seed_type;
-    static boost::mt19937 ran(static_cast<seed_type>(std::time(0)));
-    static boost::uuids::basic_random_generator<boost::mt19937> gen(&ran);
+    // seeded from the operating system's entropy source: seeding with the wall clock made all
+    // processes started within the same second produce the same sequence of ids
+    static boost::uuids::random_generator gen;
     boost::uuids::uuid u = gen();
     return boost::uuids::to_string(u);
 }
